@@ -87,6 +87,7 @@ class Ctx:
         self.notes = []
         self.unknown_feas = 0
         self.depth_limit = 4000
+        self.deadline = None
 
     # ---- variables -------------------------------------------------------
     def _fresh(self, name, sort):
@@ -133,6 +134,8 @@ class Ctx:
     # ---- solver ----------------------------------------------------------
     def check(self, *extra, timeout_ms=None):
         st = self.stats
+        if self.deadline is not None and time.time() > self.deadline:
+            raise Abort('time budget')
         st.queries += 1
         if timeout_ms is not None:
             self.solver.set('timeout', timeout_ms)
@@ -358,6 +361,7 @@ def explore(harness, max_paths=None, timeout_ms=5000, stats=None, round_mode='ex
     while True:
         ctx = Ctx(prefix=[f[0] for f in frames], timeout_ms=timeout_ms, stats=stats,
                   round_mode=round_mode)
+        ctx.deadline = deadline
         Ctx.cur = ctx
         try:
             res = harness(ctx)
@@ -375,6 +379,7 @@ def explore(harness, max_paths=None, timeout_ms=5000, stats=None, round_mode='ex
                 frames.append([key, list(rem or [])])
         del frames[len(ctx.trail):]
         Ctx.cur = ctx
+        ctx.deadline = None if deadline is None else deadline + 20   # grace for the end-of-path queries
         try:
             yield ctx, res
         finally:
